@@ -1,8 +1,9 @@
 package main
 
 import (
-	"github.com/lidofinance/dc4bc/fsm/types/requests"
+	"bytes"
 	"fmt"
+	"github.com/lidofinance/dc4bc/fsm/types/requests"
 	"strings"
 
 	"github.com/lidofinance/dc4bc/fsm/state_machines"
@@ -143,7 +144,10 @@ func payloadPart(proj string) string {
 }
 
 func scenarioC05(c *Ctx) {
-	type cfg struct{ n, t, max int; full bool }
+	type cfg struct {
+		n, t, max int
+		full      bool
+	}
 	var cfgs []cfg
 	if c.Quick() {
 		cfgs = []cfg{{2, 2, 100000, true}, {3, 2, 2500, true}, {3, 3, 100000, false}}
@@ -184,6 +188,21 @@ func scenarioC05(c *Ctx) {
 					fail("error-not-cancelled", "an accepted error report did not cancel the round", srcProj, ev, o)
 				case (ev.Kind == "confirm-late" || ev.Kind == "decline-late" || ev.Kind == "dkg-confirm-late" || ev.Kind == "master-late") && !strings.HasSuffix(after.State, "canceled_by_timeout"):
 					fail("late-not-cancelled", "an accepted contribution stamped after the deadline did not cancel the round", srcProj, ev, o)
+				}
+				// (3') a key announcement that leaves the master-key phase although it differs from one already
+				// announced (compared in full, whatever lengths the keys have) must end in the cancelled state
+				if req, isMaster := ev.Req.val.(requests.DKGProposalMasterKeyConfirmationRequest); isMaster && ev.Name == dkgConfirmEv[3] {
+					if d := decodeDump(src); d.Payload != nil && d.Payload.DKGProposalPayload != nil {
+						differs := false
+						for id, q := range d.Payload.DKGProposalPayload.Quorum {
+							if id != req.ParticipantId && len(q.DkgMasterKey) > 0 && !bytes.Equal(q.DkgMasterKey, req.MasterKey) {
+								differs = true
+							}
+						}
+						if differs && !strings.Contains(after.State, "master_key_await") && !strings.HasSuffix(after.State, "canceled_by_error") && !strings.HasSuffix(after.State, "canceled_by_timeout") {
+							fail("differing-keys-accepted", "the last key announcement differs from one announced before, yet the round left the master-key phase without being cancelled ("+after.State+")", srcProj, ev, o)
+						}
+					}
 				}
 				// (1) exactly once: an accepted contribution comes from a participant that was still awaited
 				// (a repeated answer stamped after the deadline is a deadline event: it cancels by timeout)
